@@ -1,0 +1,75 @@
+//go:build verif
+
+package graphql
+
+// Instrumentation used by the /verif model-based checks. Compiled only with
+// the build tag `verif`; see verif_off.go for the no-op twins.
+
+import (
+	"sync/atomic"
+
+	"github.com/graphql-go/graphql/language/ast"
+)
+
+type verifHookFn func(ev string, args ...interface{})
+
+var verifHook atomic.Value // holds verifHookFn
+
+// SetVerifHook installs (or, with nil, removes) the event sink. The sink is
+// called synchronously at the instrumentation point, so it may block the
+// calling goroutine (the checks use this as a scheduler gate).
+func SetVerifHook(f func(ev string, args ...interface{})) {
+	verifHook.Store(verifHookFn(f))
+}
+
+func verifEvent(ev string, args ...interface{}) {
+	if f, _ := verifHook.Load().(verifHookFn); f != nil {
+		f(ev, args...)
+	}
+}
+
+// Step counters (C19). Indices: 0 collectInto selections, 1 merged selection
+// plans, 2 findConflict, 3 fields-vs-fragment comparisons, 4 fragment-vs-fragment
+// comparisons, 5 fragment spread collection steps, 6 variable usage walks.
+var verifCounters [8]atomic.Int64
+
+func verifCount(k int) { verifCounters[k].Add(1) }
+
+// VerifCounters returns a snapshot of the step counters.
+func VerifCounters() (out [8]int64) {
+	for i := range verifCounters {
+		out[i] = verifCounters[i].Load()
+	}
+	return
+}
+
+// VerifResetCounters zeroes the step counters.
+func VerifResetCounters() {
+	for i := range verifCounters {
+		verifCounters[i].Store(0)
+	}
+}
+
+// VerifNormalize exposes the plan cache's literal normalisation.
+func VerifNormalize(schema *Schema, doc *ast.Document, operationName string) (*ast.Document, map[string]interface{}, string, error) {
+	return normalizeDocument(schema, doc, operationName)
+}
+
+// VerifTryLocked reports whether the cache mutex is currently held (used by
+// instrumentation inside critical sections to tell a real lock from a removed one).
+func (c *PlanCache) VerifTryLocked() bool {
+	if c.mu.TryLock() {
+		c.mu.Unlock()
+		return false
+	}
+	return true
+}
+
+// VerifAbstractLocked is the same for a plan's lazy-planning mutex.
+func (p *Plan) VerifAbstractLocked() bool {
+	if p.abstractMu.TryLock() {
+		p.abstractMu.Unlock()
+		return false
+	}
+	return true
+}
